@@ -199,6 +199,7 @@ Ltac tidy := repeat match goal with
   | H : false = true |- _ => discriminate H
   | H : true = false |- _ => discriminate H
   | H : _ = mkCaller _ _ _ _ _ _ _ _ |- _ => clear H
+  | H : length ?l = 0 |- _ => is_var l; destruct l; [clear H | discriminate H]
   | |- true = true -> _ => intros _
   | |- false = false -> _ => intros _
   | |- false = true -> _ => let X := fresh in intro X; discriminate X
@@ -307,8 +308,8 @@ Proof. exact (cntj_filter_caller j c l). Qed.
 Lemma cntpj_filter_notcaller j c l :
   cntp (job_eqb j) (filter (fun x => negb (of_caller c x)) l) = if Nat.eqb (fst j) c then 0 else cntp (job_eqb j) l.
 Proof. exact (cntj_filter_notcaller j c l). Qed.
-Lemma cntpc_zero_cntpj c a b l : cntp (of_caller c) l = 0 -> cntp (job_eqb (c, a)) l = 0 /\ b = b.
-Proof. intro H. split; [|reflexivity]. apply (cntc_zero_cntj (c, a)). exact H. Qed.
+Lemma cntpc_zero_cntpj c a l : cntp (of_caller c) l = 0 -> cntp (job_eqb (c, a)) l = 0.
+Proof. intro H. apply (cntc_zero_cntj (c, a)). exact H. Qed.
 
 Ltac cs :=
   unfold inflight, qheld, pheld, cntj, cntc in *; simpl in *; rw_eqs; simpl in *;
@@ -356,9 +357,25 @@ Ltac caller_goalB HB :=
   | |- _ => callerB_other HB c'
   end.
 
+Ltac job_goalB Hjob :=
+  let a := fresh "a" in let b := fresh "b" in let J := fresh "J" in
+  intros [a b]; pose proof (Hjob (a, b)) as J; simpl in J |- *;
+  repeat match goal with K : Forall _ (_ :: _) |- _ => pose proof (Forall_inv K); clear K end;
+  lazymatch goal with
+  | |- context [upd _ ?c _ a] =>
+      unfold upd; destruct (Nat.eqb_spec a c) as [->|?];
+      [ repeat match goal with Hk : callers _ _ = mkCaller _ _ _ _ _ _ _ _ |- _ => rewrite Hk in J end | ]
+  | |- _ => idtac
+  end;
+  simpl in J |- *;
+  try match goal with
+  | |- context [cntp (job_eqb (?c, ?b)) (filter _ (res ?s))] => pose proof (cntpc_zero_cntpj c b (res s))
+  end;
+  finB.
+
 Lemma invB_step cf s l s' : InvA cf s -> InvB cf s -> step cf s l = Some s' -> InvB cf s'.
 Proof.
   intros HA [Herr HB Hjob] H. pose proof (a_caller _ _ HA) as HC. clear HA.
   destruct l; open_labelB HB HC;
-  (constructor; simpl; [ finB | caller_goalB HB | idtac ]).
-Admitted.
+  (constructor; simpl; [ finB | caller_goalB HB | job_goalB Hjob ]).
+Qed.
